@@ -17,8 +17,8 @@ W = World()
 Ob = TVal('Ob'); SetOb = TSet(Ob); BagOb = TBag(Ob)
 PairOI = TTuple(Ob, TInt); BagPair = TBag(PairOI)
 MapII = TMap(TInt, TInt); MapRem = TMap(Ob, MapII); MapImp = TMap(Ob, BagPair)
-CFGC = TRec('CFG', [('Tm', SetOb), ('impacts', MapImp), ('remaining', MapRem), ('added', SetOb), ('built', TBool)])
-for py, f in [('_terminals', 'Tm'), ('_impacts', 'impacts'), ('_remaining_lists', 'remaining'), ('_added_impacts', 'added')]: W.fields[('CFG', py)] = f
+CFGC = TRec('CFGCounters', [('Tm', SetOb), ('impacts', MapImp), ('remaining', MapRem), ('added', SetOb), ('built', TBool)])
+for py, f in [('_terminals', 'Tm'), ('_impacts', 'impacts'), ('_remaining_lists', 'remaining'), ('_added_impacts', 'added')]: W.fields[('CFGCounters', py)] = f
 W.consts['None'] = NONE_SYM
 EPSOB = Const('EPSILON_OBJECT', Ob.sort())
 W.ctors['Epsilon'] = lambda eng, e, st: Sym(Ob, EPSOB)
@@ -35,7 +35,7 @@ def tables_wf(G):
     return ForAll([c_, s_, i_], Implies(And(idom(G.impacts, c_), Select(ilist(G.impacts, c_), pair(s_, i_)) > 0), And(rdom(G.remaining, s_), cdom(G.remaining, s_, i_))))
 def same_shape(R, R0):
     return And(ForAll([s_], rdom(R, s_) == rdom(R0, s_)), ForAll([s_, i_], Implies(rdom(R0, s_), cdom(R, s_, i_) == cdom(R0, s_, i_))))
-W.contract(Contract('CFG._set_impacts_and_remaining_lists', [('self', CFGC)], ret=TNone, modifies=('self',),
+W.contract(Contract('CFGCounters._set_impacts_and_remaining_lists', [('self', CFGC)], ret=TNone, modifies=('self',),
     ensures=lambda o, r, n: And(n.self.built.term, n.self.Tm == o.self.Tm, tables_wf(n.self),
                                 Implies(o.self.built.term, And(n.self.impacts == o.self.impacts, n.self.remaining == o.self.remaining, n.self.added == o.self.added)))))
 
@@ -51,7 +51,7 @@ def counters(e, R0, minus, plus=None):
 BUILT = '$post._set_impacts_and_remaining_lists.self'
 def built(e): return e.get(BUILT).remaining
 EMPTYBP = BagPair.empty()
-W.contract(Contract('CFG._get_generating_or_nullable', [('self', CFGC), ('nullable', TBool)], ret=SetOb, modifies=('self',),
+W.contract(Contract('CFGCounters._get_generating_or_nullable', [('self', CFGC), ('nullable', TBool)], ret=SetOb, modifies=('self',),
     ensures=lambda o, r, n, g: And(n.self.built.term, n.self.Tm == o.self.Tm,
                                    n.self.impacts == g.B.impacts, n.self.added == g.B.added,                           # tables as built ...
                                    same_shape(n.self.remaining, g.B.remaining),
@@ -69,8 +69,8 @@ W.contract(Contract('CFG._get_generating_or_nullable', [('self', CFGC), ('nullab
 W.ground_sorts = (Ob.sort(),)
 W.special = {}
 _P = 'pyformlang/cfg/cfg.py'
-TARGETS = {'CFG._get_generating_or_nullable': (_P, 'CFG._get_generating_or_nullable')}
+TARGETS = {'CFGCounters._get_generating_or_nullable': (_P, 'CFG._get_generating_or_nullable')}
 SMOKE = [
-    ('CFG._get_generating_or_nullable', _P, "            self._remaining_lists[symbol_impact][index_impact] += 1", "            self._remaining_lists[symbol_impact][index_impact] += 0", 'break'),
-    ('CFG._get_generating_or_nullable', _P, "                processed_with_modification.append(\n                    (symbol_impact, index_impact))\n                self._remaining_lists", "                self._remaining_lists", 'break'),
+    ('CFGCounters._get_generating_or_nullable', _P, "            self._remaining_lists[symbol_impact][index_impact] += 1", "            self._remaining_lists[symbol_impact][index_impact] += 0", 'break'),
+    ('CFGCounters._get_generating_or_nullable', _P, "                processed_with_modification.append(\n                    (symbol_impact, index_impact))\n                self._remaining_lists", "                self._remaining_lists", 'break'),
 ]
